@@ -50,6 +50,7 @@ struct C29 : drv::Harness
 		p.knobs["rotnum"] = r;
 		p.knobs["target"] = rng.below(3) == 0;      // 0 = file logger, 1 = file persister purge
 		p.knobs["append"] = rng.chance(0.3);
+		p.knobs["compress"] = rng.chance(0.15);     // file logger with the compress flag: generations are called name.k.gz (in this build the live file stays plain)
 		// pre-existing generations (k = 0 is the live file) and decoys
 		std::set<int64_t> g;
 		int n = (int)rng.range(0, 7);
@@ -73,7 +74,8 @@ struct C29 : drv::Harness
 		const std::string dir = persister ? "/simfs/rot" : g_dir, base = persister ? "store.db" : "app.log";
 		std::vector<std::string> gen, gen_idx; // names relative to dir
 		gen.push_back(base); gen_idx.push_back(base + ".idx");
-		for (unsigned k = 1; k <= 1102; ++k) { gen.push_back(base + "." + std::to_string(k)); gen_idx.push_back(base + "." + std::to_string(k) + ".idx"); }
+		const bool compress = !persister && p.knob("compress") != 0;
+		for (unsigned k = 1; k <= 1102; ++k) { gen.push_back(base + "." + std::to_string(k) + (compress ? ".gz" : "")); gen_idx.push_back(base + "." + std::to_string(k) + ".idx"); }
 		std::map<std::string, std::string> model;
 		if (!persister) clean_real(dir);
 		auto put_file = [&](const std::string& name, const std::string& content)
@@ -137,7 +139,7 @@ struct C29 : drv::Harness
 		}
 		else
 		{
-			Logger::LogFlags flags; flags << Logger::sequence; if (append) flags << Logger::append;
+			Logger::LogFlags flags; flags << Logger::sequence; if (append) flags << Logger::append; if (compress) { flags << Logger::compress; sim::count("logger_with_compress_flag"); }
 			FileLogger *lg = new FileLogger(dir + "/" + base, flags, Logger::Levels(Logger::All), " ", Logger::LogPositions(), rot);
 			if (rot > 0 && !append) expect_rotation();
 			compare("after construction");
@@ -173,7 +175,7 @@ struct C29 : drv::Harness
 		return r;
 	}
 
-	std::vector<std::pair<std::string, int64_t>> knob_floor() const override { return { { "append", 0 } }; }
+	std::vector<std::pair<std::string, int64_t>> knob_floor() const override { return { { "append", 0 }, { "compress", 0 } }; }
 	void finish() override { clean_real(g_dir); rmdir(g_dir.c_str()); }
 };
 
